@@ -9,8 +9,11 @@ spec  : specs/DocParse.tla with alphabet C19_Blocks: programs of the C01
         NoStatementSplit say that they hold every source line once, in order.
 replay: 1..3 finished docstrings (some force-disabled by their first line) are
         written as functions of one module; runner.doctest_module(path, 'dump')
-        is captured and must (a) parse with ast, (b) contain exactly one test
-        function per enabled doctest, (c) each body, minus the generated
+        (one function per docstring; or two google blocks in ONE function, i.e.
+        two doctests of one callable; or a method K.m next to a function K_m,
+        names that coincide once dots are replaced) is captured and must
+        (a) parse with ast, (b) contain exactly one test function per enabled
+        doctest, in collection order, (c) each body, minus the generated
         docstring / import header / want comments, must be the de-prompted
         source lines of that doctest in order without the star-imports, and
         (d) the want lines must appear, in order, as comments.
@@ -53,29 +56,96 @@ def _expected(case, lines):
     return seq, nw
 
 
+def _docstring(chunks):
+    """chunks: list of list of lines (already indented 4) -> (quote, text) or None"""
+    text = '\n'.join('\n'.join(c) for c in chunks)
+    q = '"""' if '"""' not in text else ("'''" if "'''" not in text else None)
+    return (q, text) if q else None
+
+
 def _module_case(args):
     idx, raws = args
     rot = (zlib.crc32(raws[0].encode()) + _M['seed']) % 100003
     cases = [parselib.decode(r) for r in raws]
-    src = [HEADER]
-    exp = {}
+    if any(c['f11'] or c['err'] != 'none' for c in cases):
+        return None
+    # layout 0: one function per docstring; 1: the first function holds two google blocks (two doctests of ONE callable);
+    # 2: a method K.m and a function K_m (names that collide once dots are replaced)
+    layout = (rot // 7) % 3 if len(cases) >= 2 else 0
+    rendered = []
+    flags = []
     for i, case in enumerate(cases):
-        lines = parselib.render(case, rot + i, texts=parselib.PLAIN_TEXTS)
+        lines = parselib.render(case, rot + i, texts=parselib.PLAIN_TEXTS, extra_indent=4 if (layout == 1 and i < 2) else 0)
         disabled = (rot + i) % 4 == 0
         if disabled:
-            lines = ['>>> # %s' % ['DISABLE_DOCTEST', 'SCRIPT', 'UNSTABLE', 'FAILING', 'SLOW_DOCTEST'][(rot + i) % 5]] + lines
-        text = '\n'.join(('    ' + l if l else '') for l in lines)
-        q = '"""' if '"""' not in text else ("'''" if "'''" not in text else None)
-        if q is None or case['f11'] or case['err'] != 'none':
-            return None
-        src.append('\n\ndef f%d():\n    r%s\n%s\n    %s\n    return %d\n' % (i, q, text, q, i))
+            pad = '    ' if (layout == 1 and i < 2) else ''
+            lines = [pad + '>>> # %s' % ['DISABLE_DOCTEST', 'SCRIPT', 'UNSTABLE', 'FAILING', 'SLOW_DOCTEST'][(rot + i) % 5]] + lines
         has_code = any(p[0] == 'code' for p in case['parts'])
-        if has_code and not disabled:
-            exp['f%d' % i] = _expected(case, lines)
+        rendered.append((case, lines, has_code and not disabled))
+        flags.append((case, lines, disabled, has_code))
+    src = [HEADER]
+    exp = []                     # (test function name suffix, expected) in collection order
+
+    def ind(lines, n=4):
+        return [(' ' * n + l if l else '') for l in lines]
+
+    if layout == 1:
+        (c0, l0, e0), (c1, l1, e1) = rendered[0], rendered[1]
+        tag = ['Example:', 'Doctest:', 'Example:'][rot % 3]
+        d = _docstring([ind(['Two blocks.', '', tag] + l0 + ['', 'Example:'] + l1)])
+        if d is None:
+            return None
+        src.append('\n\ndef f0():\n    r%s\n%s\n    %s\n    return 0\n' % (d[0], d[1], d[0]))
+        # a google block is a doctest even when it holds no code (its test function is then just `...`)
+        for (c, l, e), (_, _, dis, code) in zip(rendered[:2], flags[:2]):
+            if not dis:
+                exp.append(('f0', _expected(c, l) if code else (['...'], 0)))
+        rest = rendered[2:]
+        for i, (c, l, e) in enumerate(rest, 1):
+            d = _docstring([ind(l)])
+            if d is None:
+                return None
+            src.append('\n\ndef f%d():\n    r%s\n%s\n    %s\n    return %d\n' % (i, d[0], d[1], d[0], i))
+            if e:
+                exp.append(('f%d' % i, _expected(c, l)))
+    elif layout == 2:
+        (c0, l0, e0), (c1, l1, e1) = rendered[0], rendered[1]
+        d0, d1 = _docstring([ind(l0, 8)]), _docstring([ind(l1)])
+        if d0 is None or d1 is None:
+            return None
+        klass = '\n\nclass K(object):\n    def m(self):\n        r%s\n%s\n        %s\n        return 0\n' % (d0[0], d0[1], d0[0])
+        func = '\n\ndef K_m():\n    r%s\n%s\n    %s\n    return 1\n' % (d1[0], d1[1], d1[0])
+        order = [(klass, 'K_m', c0, l0, e0), (func, 'K_m', c1, l1, e1)]
+        if rot % 2:
+            order.reverse()
+        for text, name, c, l, e in order:
+            src.append(text)
+            if e:
+                exp.append((name, _expected(c, l)))
+        for i, (c, l, e) in enumerate(rendered[2:], 2):
+            d = _docstring([ind(l)])
+            if d is None:
+                return None
+            src.append('\n\ndef f%d():\n    r%s\n%s\n    %s\n    return %d\n' % (i, d[0], d[1], d[0], i))
+            if e:
+                exp.append(('f%d' % i, _expected(c, l)))
+    else:
+        for i, (c, l, e) in enumerate(rendered):
+            d = _docstring([ind(l)])
+            if d is None:
+                return None
+            src.append('\n\ndef f%d():\n    r%s\n%s\n    %s\n    return %d\n' % (i, d[0], d[1], d[0], i))
+            if e:
+                exp.append(('f%d' % i, _expected(c, l)))
     modname = 'xdvc19_%d_%d' % (os.getpid(), idx)
     path = os.path.join(_M['dir'], modname + '.py')
     with open(path, 'w') as f:
         f.write(''.join(src))
+    try:
+        compile(''.join(src), path, 'exec')
+    except SyntaxError as ex:
+        os.unlink(path)
+        raise common.MachineryError('rendered module is not valid Python: %r\n%s' % (ex, ''.join(src)))
     try:
         res = modlib.run_native(path, 'dump', verbose=0)
     finally:
@@ -92,15 +162,15 @@ def _module_case(args):
             tree = None
         if tree is not None:
             funcs = [n for n in tree.body if isinstance(n, ast.FunctionDef)]
-            names = sorted(n.name for n in funcs)
-            want_names = sorted('test_%s_%s' % (modname, k) for k in exp)
+            names = [n.name for n in funcs]
+            want_names = ['test_%s_%s' % (modname, k) for k, _ in exp]
             if names != want_names:
                 bad.append(('test_functions', want_names, names))
             else:
                 olines = out.split('\n')
                 starts = sorted(n.lineno for n in funcs) + [len(olines) + 1]
-                for n in funcs:
-                    key = n.name.rsplit('_', 1)[1]
+                for pos, (n, (key, (e_seq, e_nw))) in enumerate(zip(funcs, exp)):
+                    key = '%s#%d' % (key, pos)
                     nxt = min(x for x in starts if x > n.lineno)
                     body = olines[n.lineno:nxt - 1]      # comments after the last statement belong to the function too
                     body = [l.strip() for l in body]
@@ -118,12 +188,11 @@ def _module_case(args):
                             continue
                         if l:
                             seq.append(l)
-                    e_seq, e_nw = exp[key]
                     if seq != e_seq:
                         bad.append(('body_lines_and_want_comments[%s]' % key, e_seq, seq))
                     if nmark != e_nw:
                         bad.append(('want_blocks[%s]' % key, e_nw, nmark))
-    info = {'n': len(exp)}
+    info = {'n': len(exp), 'layout': layout}
     if bad:
         info['bad'] = [(f, repr(a), repr(b)) for f, a, b in bad]
         info['text'] = ''.join(src)
